@@ -123,7 +123,8 @@ func verifFieldStoreWindow() {
 }
 
 func verifC11FieldStore2() { verifFieldStore(2, 10, 15) }
-func verifC11FieldStore3() { verifFieldStore(3, 10, 15) }
+func verifC11FieldStore3() { verifFieldStore(3, 10, 14) }
+func verifC11FieldStore4() { verifFieldStore(4, 10, 14) }
 
 func verifC11FieldReach() {
 	buf := make([]byte, headLen+8*valueSize)
